@@ -331,10 +331,11 @@ Definition get_nodeaddr (st : astate) (a : arg) : shape :=
               else Rec (("known_and_connected", sc 0) :: addr_fields None)
   | None => Rec (("known_and_connected", sc 0) :: addr_fields None)
   end.
-(* no connected test here: a configured but unconnected board yields known_and_connected = true *)
+(* like bidib_get_nodeaddr: known_and_connected only for a connected board *)
 Definition get_nodeaddr_by_uniqueid (st : astate) (a : arg) : shape :=
   match find_board_uid st (arg_raw a) with
-  | Some b => Rec (("known_and_connected", sc 1) :: addr_fields (Some (b_addr b)))
+  | Some b => if b_connected b then Rec (("known_and_connected", sc 1) :: addr_fields (Some (b_addr b)))
+              else Rec (("known_and_connected", sc 0) :: addr_fields None)
   | None => Rec (("known_and_connected", sc 0) :: addr_fields None)
   end.
 Definition idq (o : option str) : shape :=
